@@ -1,5 +1,6 @@
 import NflowsModel.Audit.Tool
 import NflowsModel.Properties.C03
 import NflowsModel.Properties.C03ND
+import NflowsModel.Properties.C03B
 
 #audit_namespace Properties.C03
